@@ -22,6 +22,14 @@
      KNOWN v2_edge_cache_visited        only the weighted-graph engines differ, and the computed
                                         hazard predicate QueryCache.v2_visited_hazard holds for an
                                         earlier request of the same partition;
+           v2_error_race                only the weighted-graph engines differ, one side is an error of the
+                                        evaluation (condition error while a valid tuple of the partition has a
+                                        condition that cannot be evaluated; "userset / wildcard request with
+                                        exclusion" error), the other allowed / denied: the uncached engine itself
+                                        returns either, depending on which branch reports first;
+           lo_cache_key_without_ctx     engine 4 (ListObjects with enable-list-objects-optimizations): the list
+                                        differs and an earlier optimised ListObjects of the same user ran in another
+                                        world (C04 finding: candidate checks are cached with invariant key 0);
            depth_error_masked_by_cache  default engine: uncached = resolution depth exceeded, cached
                                         = the answer the model gives without a depth limit;
            excl_sub_cycle / cond_err_swallowed   the C01 findings (V1 trigger flags), as in c01_oracle.ml. *)
@@ -173,7 +181,12 @@ let f _id vs =
           let txt = Printf.sprintf "%s: uncached=%s cached(run %d)=%s" wh (String.concat "/" (List.map cls_s us)) run (cls_s cc) in
           if eng = 1 || eng = 3 then begin
             (* the default engine must be unaffected for the finding to be the edge cache's *)
-            if hazard p si a then known ("v2_edge_cache_visited " ^ txt) else prop txt
+            let (_, _, _, has_e) = sem p in
+            if hazard p si a then known ("v2_edge_cache_visited " ^ txt)
+            else if ((has_e && (cc = 3 || List.mem 3 us)) || cc = 8 || List.mem 8 us)
+                    && List.for_all (fun x -> x = 3 || x = 8 || x = 0 || x = 1) (cc :: us)
+            then known ("v2_error_race " ^ txt)
+            else prop txt
           end else begin
             let nl = v1_nolimit p a in
             if List.mem 4 (List.map api us) && (cc = 0 || cc = 1 || cc = 2)
@@ -242,7 +255,13 @@ let f _id vs =
                   let wh = Printf.sprintf "engine %d step %d ListObjects w%d t%d#r%d@%s" eng si it.w it.ot (int_of_n it.rel) (subj_s (List.nth subjs it.s)) in
                   if u0 <> cc then begin
                     let txt = Printf.sprintf "%s: uncached=%s cached(run %d)=%s" wh (cls_s u0) run (cls_s cc) in
-                    if (eng = 0 || eng = 2) && u0 = 4 && cc = 0 then known ("depth_error_masked_by_cache " ^ txt) else prop txt
+                    let other_world = ref false in
+                    List.iteri (fun sj st -> match st with
+                      | SList it' when sj < si && it'.s = it.s && it'.w <> it.w -> other_world := true
+                      | _ -> ()) steps;
+                    if (eng = 0 || eng = 2) && u0 = 4 && cc = 0 then known ("depth_error_masked_by_cache " ^ txt)
+                    else if eng = 4 && !other_world then known ("lo_cache_key_without_ctx " ^ txt)
+                    else prop txt
                   end else if u0 = 0 && uo <> cobjs then begin
                     let sym = List.filter (fun x -> not (List.mem x cobjs)) uo @ List.filter (fun x -> not (List.mem x uo)) cobjs in
                     List.iter (fun (t, i) ->
@@ -252,6 +271,15 @@ let f _id vs =
                           (if inu then "listed without the cache, missing with it (run " ^ string_of_int run ^ ")"
                            else "listed only with the cache (run " ^ string_of_int run ^ ")") in
                       if eng = 1 || eng = 3 then (if hazard p si a then known ("v2_edge_cache_visited " ^ txt) else prop txt)
+                      else if eng = 4 then begin
+                        (* optimised ListObjects: its candidate checks are cached without the invariant part of the
+                           key, so an earlier optimised ListObjects of the same user in ANOTHER world can answer *)
+                        let other_world = ref false in
+                        List.iteri (fun sj st -> match st with
+                          | SList it' when sj < si && it'.s = it.s && it'.w <> it.w -> other_world := true
+                          | _ -> ()) steps;
+                        if !other_world then known ("lo_cache_key_without_ctx " ^ txt) else prop txt
+                      end
                       else begin
                         let (_, tr1) = v1 p a in
                         let (_, tr2) = a2 p a in
